@@ -104,6 +104,25 @@ func obsEngine(e error) SX {
 	return L(out...)
 }
 
+// refSublists: reference lists without the identity-matching nodes of the error itself at their
+// head (second half, last four) in both orders: IsAny must not depend on the order or on
+// references that share a message.
+func refSublists(refs []error) [][]error {
+	rev := func(l []error) []error {
+		o := make([]error, len(l))
+		for i, x := range l {
+			o[len(l)-1-i] = x
+		}
+		return o
+	}
+	a := refs[len(refs)/2:]
+	c := refs
+	if len(refs) > 4 {
+		c = refs[len(refs)-4:]
+	}
+	return [][]error{a, rev(a), c, rev(c)}
+}
+
 // obsCase computes the real-code observations of a case, in the same shape as
 // ErrModel.obsCase.
 // engineStreams: emit the formatting / report streams only (the engine properties), with
@@ -158,5 +177,12 @@ func obsCase(e error, refs []error) SX {
 		L(Sym("compat"), optSX(func() SX { return compatSX(e, refs) })),
 		L(Sym("isany"), optSX(func() SX { return Bool(errors.IsAny(e, refs...)) })),
 		L(Sym("isanyhalf"), optSX(func() SX { return Bool(errors.IsAny(e, refs[:len(refs)/2]...)) })),
+		L(Sym("isanyx"), optSX(func() SX {
+			var out []SX
+			for _, sl := range refSublists(refs) {
+				out = append(out, Bool(errors.IsAny(e, sl...)))
+			}
+			return L(out...)
+		})),
 	)
 }
